@@ -16,6 +16,7 @@ TRUSTED = [
     'axioms: none (Print Assumptions must report "Closed under the global context" for every theorem of Props/C01.v)',
     'Props/C01.v collects the no-crash / totality theorems of the component models (C02, C04-C07, C09, C11-C16, C18-C20 as available) and the handler table',
     'the component models are hand-written and tied to the code by their own correspondence checks',
+    'tools/gen/gen_plurals_src.py (source translation of Checker.check_plurals / gettext.parse_plural_forms -> Generated/PluralsSrc.v, see C07): C01_source_tie_check_plurals_total is about that translation',
     'tools/gen/gen_raisesites.py (python ast of /repo/lib -> Generated/RaiseSites.v): its call resolution (simple name / attribute name within lib/, per-class self dispatch, '
     'union over classes for unknown receivers, same-module-first), its list of implicit raisers outside lib/ (IMPLICIT, DIVISION_FILES, EXTERNAL_ENTRY for polib, the codec registry), '
     'and its three reviewed tables: DEAD_RAISES (defensive raises excluded from the summaries), WHITELIST (rows deliberately left uncaught), CALLEE_OVERRIDES',
